@@ -116,3 +116,23 @@ def compact_final(x):
     r = {k: x[k] for k in x if k != "hosts"}
     r["hosts"] = {h: {k: y[k] for k in ("up", "ro", "src", "io", "sql", "offline", "exec", "pend")} for h, y in x["hosts"].items()}
     return r
+
+
+def skeleton_rows(ctx, rows):
+    """Every switchover activation of the real manager (rows of kind "skel": classes of its successful mutating calls in
+    order) must be a walk through the control skeleton that Switchover.tla implements (SwitchSkel.tla, SkelOrder).
+    A rejected walk is DRIFT between the model and the code - logged and counted, not a verdict on a listed property."""
+    sk = [x for x in rows if x.get("kind") == "skel"]
+    if not sk:
+        return {"activations": 0, "distinct_walks": 0, "rejected": 0}
+    fails, agg = vlib.judge_rows(ctx, sk, "SwitchSkelRows", cfg="SwitchSkelRows.cfg", chunk=3000, par=8)
+    shown = set()
+    for name, i, row in fails:
+        walk = ",".join(c for c in row["seq"] if not c.startswith("aux:"))
+        if walk not in shown and len(shown) < 5:
+            shown.add(walk)
+            ctx.log("MODEL-DRIFT %s: the calls of a switchover activation of %s are not a walk through the skeleton of "
+                    "Switchover.tla: %s (scenario %s)" % (name, row["by"], walk, row["scn"]))
+    return {"activations": sum(x["count"] for x in sk), "distinct_walks": len({",".join(x["seq"]) for x in sk}),
+            "complete_walks": sum(x["count"] for x in sk if x["seq"] and x["seq"][-1] == "finish" and "master" in x["seq"]),
+            "rejected": len(fails)}
